@@ -330,40 +330,40 @@ theorem addsubmuldiv_exact_ctx (R : Rounding) (v : Ver) (hv : v ≠ .v10) (a b :
              have h3 := h3.symm; have h4 := h4.symm; subst h1 h2 h3 h4)
   · -- int, int: integer results are exact; div goes through Decimal
     refine ⟨?_, ?_, ?_, ?_⟩
-    · simp [opAdd, coerce, mixedOverflow, intOvf, isFloat, absNum, specBin, promote, XVal.ty, Ty.rank, XVal.toRat?, exactBin, Except.map, pure,
+    · simp [opAdd, coerce, mixedOverflow, intOvf, isFloat, promF, isFlt, isDbl, absNum, specBin, promote, XVal.ty, Ty.rank, XVal.toRat?, exactBin, Except.map, pure,
         Except.pure, ctxDec]
       rw [← Int.cast_add, floor_intCast']
-    · simp [opSub, coerce, mixedOverflow, intOvf, isFloat, absNum, specBin, promote, XVal.ty, Ty.rank, XVal.toRat?, exactBin, Except.map, pure,
+    · simp [opSub, coerce, mixedOverflow, intOvf, isFloat, promF, isFlt, isDbl, absNum, specBin, promote, XVal.ty, Ty.rank, XVal.toRat?, exactBin, Except.map, pure,
         Except.pure, ctxDec]
       rw [← Int.cast_sub, floor_intCast']
-    · simp [opMul, coerce, mixedOverflow, intOvf, isFloat, absNum, specBin, promote, XVal.ty, Ty.rank, XVal.toRat?, exactBin, Except.map, pure,
+    · simp [opMul, coerce, mixedOverflow, intOvf, isFloat, promF, isFlt, isDbl, absNum, specBin, promote, XVal.ty, Ty.rank, XVal.toRat?, exactBin, Except.map, pure,
         Except.pure, ctxDec]
       rw [← Int.cast_mul, floor_intCast']
     · by_cases hy : y = 0
-      · cases v <;> simp_all [opDiv, coerce, mixedOverflow, intOvf, isFloat, isZero, isFloat, absNum, specBin, XVal.toRat?, exactBin, Except.map,
+      · cases v <;> simp_all [opDiv, coerce, mixedOverflow, intOvf, isFloat, promF, isFlt, isDbl, isZero, isFloat, absNum, specBin, XVal.toRat?, exactBin, Except.map,
           throw, throwThe, MonadExceptOf.throw]
       · have hyq : (y : Rat) ≠ 0 := by exact_mod_cast hy
         have := hD hy
-        simp [opDiv, coerce, mixedOverflow, intOvf, isFloat, isZero, hy, hyq, asDec, mkDec, absNum, specBin, promote, XVal.ty, Ty.rank, XVal.toRat?,
+        simp [opDiv, coerce, mixedOverflow, intOvf, isFloat, promF, isFlt, isDbl, isZero, hy, hyq, asDec, mkDec, absNum, specBin, promote, XVal.ty, Ty.rank, XVal.toRat?,
           exactBin, Except.map, pure, Except.pure, ctxDec]
         simpa [p10] using this
   all_goals
     refine ⟨?_, ?_, ?_, ?_⟩
-    · simp [opAdd, coerce, mixedOverflow, intOvf, isFloat, asDec, mkDec, absNum, specBin, promote, XVal.ty, Ty.rank, XVal.toRat?, exactBin,
+    · simp [opAdd, coerce, mixedOverflow, intOvf, isFloat, promF, isFlt, isDbl, asDec, mkDec, absNum, specBin, promote, XVal.ty, Ty.rank, XVal.toRat?, exactBin,
         Except.map, pure, Except.pure, ctxDec]
       simpa [p10] using hA
-    · simp [opSub, coerce, mixedOverflow, intOvf, isFloat, asDec, mkDec, absNum, specBin, promote, XVal.ty, Ty.rank, XVal.toRat?, exactBin,
+    · simp [opSub, coerce, mixedOverflow, intOvf, isFloat, promF, isFlt, isDbl, asDec, mkDec, absNum, specBin, promote, XVal.ty, Ty.rank, XVal.toRat?, exactBin,
         Except.map, pure, Except.pure, ctxDec]
       simpa [p10, sub_eq_add_neg] using hS
-    · simp [opMul, coerce, mixedOverflow, intOvf, isFloat, asDec, mkDec, absNum, specBin, promote, XVal.ty, Ty.rank, XVal.toRat?, exactBin,
+    · simp [opMul, coerce, mixedOverflow, intOvf, isFloat, promF, isFlt, isDbl, asDec, mkDec, absNum, specBin, promote, XVal.ty, Ty.rank, XVal.toRat?, exactBin,
         Except.map, pure, Except.pure, ctxDec]
       simpa [p10] using hM
     · by_cases hy : y = 0
-      · cases v <;> simp_all [opDiv, coerce, mixedOverflow, intOvf, isFloat, isZero, isFloat, absNum, specBin, XVal.toRat?, exactBin, Except.map,
+      · cases v <;> simp_all [opDiv, coerce, mixedOverflow, intOvf, isFloat, promF, isFlt, isDbl, isZero, isFloat, absNum, specBin, XVal.toRat?, exactBin, Except.map,
           throw, throwThe, MonadExceptOf.throw, p10]
       · have hyq : (y : Rat) ≠ 0 := by exact_mod_cast hy
         have := hD hy
-        simp [opDiv, coerce, mixedOverflow, intOvf, isFloat, isZero, hy, hyq, asDec, mkDec, absNum, specBin, promote, XVal.ty, Ty.rank, XVal.toRat?,
+        simp [opDiv, coerce, mixedOverflow, intOvf, isFloat, promF, isFlt, isDbl, isZero, hy, hyq, asDec, mkDec, absNum, specBin, promote, XVal.ty, Ty.rank, XVal.toRat?,
           exactBin, Except.map, pure, Except.pure, ctxDec, p10_castR_pos]
         simpa [p10] using this
 
@@ -407,11 +407,11 @@ theorem mod_exact_ctx (R : Rounding) (v : Ver) (a b : Num) (x : Int) (sx : Nat) 
       simp [hyq, absNum, specBin, XVal.toRat?, exactBin, promote, XVal.ty, Ty.rank, Except.map, pure, Except.pure, ctxDec]
   all_goals
     by_cases hy : y = 0
-    · simp [opMod, coerce, mixedOverflow, intOvf, isFloat, numIsInf, isZero, isFloat, hy, absNum, specBin, XVal.toRat?, exactBin, asDec,
+    · simp [opMod, coerce, mixedOverflow, intOvf, isFloat, promF, isFlt, isDbl, numIsInf, isZero, isFloat, hy, absNum, specBin, XVal.toRat?, exactBin, asDec,
         Except.map, throw, throwThe, MonadExceptOf.throw, p10]
     · have hyq : (y : Rat) ≠ 0 := by exact_mod_cast hy
       have := hM hy r hr
-      simp [opMod, coerce, mixedOverflow, intOvf, isFloat, numIsInf, isZero, isFloat, hy, hyq, absNum, specBin, XVal.toRat?, exactBin, promote,
+      simp [opMod, coerce, mixedOverflow, intOvf, isFloat, promF, isFlt, isDbl, numIsInf, isZero, isFloat, hy, hyq, absNum, specBin, XVal.toRat?, exactBin, promote,
         XVal.ty, Ty.rank, Except.map, pure, Except.pure, asDec, hr, mkDec, p10_castR_pos, ctxDec]
       simpa [p10] using this
 
